@@ -567,7 +567,7 @@ def rule_tb1(ctx, RID):
                         for i2, s2 in enumerate(blk['succ']):
                             if s2 is None:
                                 continue
-                            for fk, pol, atom in load.edge_facts(bb, i2):
+                            for fk, pol, atom in load.edge_facts(bb, i2, all=True):
                                 a = strip(atom)
                                 # the alternatives this edge stands for: `f1 || f2 || f3` taken, or a single test
                                 parts = [(atom, pol)]
@@ -583,7 +583,7 @@ def rule_tb1(ctx, RID):
                                 kinds = {kind_of(pa, pp) for pa, pp in parts} - {None}
                                 if kinds:
                                     if load.find_path(None, lambda x: x is e, from_succ=s2,
-                                                      init_facts=frozenset((k_, p_) for k_, p_, a_ in load.edge_facts(bb, i2))) is not None:
+                                                      init_facts=frozenset((k_, p_) for k_, p_, a_ in load.edge_facts(bb, i2, all=True))) is not None:
                                         guard = False
                                     else:
                                         covered |= kinds
